@@ -25,9 +25,9 @@ Proofs/Walk.vos Proofs/Walk.vok Proofs/Walk.required_vos: Proofs/Walk.v Model/Da
 Proofs/DagApi.vo Proofs/DagApi.glob Proofs/DagApi.v.beautified Proofs/DagApi.required_vo: Proofs/DagApi.v Model/Dag.vo Proofs/Kahn.vo Proofs/Walk.vo
 Proofs/DagApi.vio: Proofs/DagApi.v Model/Dag.vio Proofs/Kahn.vio Proofs/Walk.vio
 Proofs/DagApi.vos Proofs/DagApi.vok Proofs/DagApi.required_vos: Proofs/DagApi.v Model/Dag.vos Proofs/Kahn.vos Proofs/Walk.vos
-Harness/Glue.vo Harness/Glue.glob Harness/Glue.v.beautified Harness/Glue.required_vo: Harness/Glue.v Lib/Bytes.vo Lib/Val.vo Model/Index.vo Model/Dag.vo Model/Git.vo Model/Tracking.vo Model/CfgFile.vo Model/Sched.vo
-Harness/Glue.vio: Harness/Glue.v Lib/Bytes.vio Lib/Val.vio Model/Index.vio Model/Dag.vio Model/Git.vio Model/Tracking.vio Model/CfgFile.vio Model/Sched.vio
-Harness/Glue.vos Harness/Glue.vok Harness/Glue.required_vos: Harness/Glue.v Lib/Bytes.vos Lib/Val.vos Model/Index.vos Model/Dag.vos Model/Git.vos Model/Tracking.vos Model/CfgFile.vos Model/Sched.vos
+Harness/Glue.vo Harness/Glue.glob Harness/Glue.v.beautified Harness/Glue.required_vo: Harness/Glue.v Lib/Bytes.vo Lib/Val.vo Model/Index.vo Model/Dag.vo Model/Git.vo Model/Tracking.vo Model/CfgFile.vo Model/Sched.vo Model/Plan.vo
+Harness/Glue.vio: Harness/Glue.v Lib/Bytes.vio Lib/Val.vio Model/Index.vio Model/Dag.vio Model/Git.vio Model/Tracking.vio Model/CfgFile.vio Model/Sched.vio Model/Plan.vio
+Harness/Glue.vos Harness/Glue.vok Harness/Glue.required_vos: Harness/Glue.v Lib/Bytes.vos Lib/Val.vos Model/Index.vos Model/Dag.vos Model/Git.vos Model/Tracking.vos Model/CfgFile.vos Model/Sched.vos Model/Plan.vos
 Harness/Extract.vo Harness/Extract.glob Harness/Extract.v.beautified Harness/Extract.required_vo: Harness/Extract.v Harness/Glue.vo
 Harness/Extract.vio: Harness/Extract.v Harness/Glue.vio
 Harness/Extract.vos Harness/Extract.vok Harness/Extract.required_vos: Harness/Extract.v Harness/Glue.vos
@@ -130,3 +130,12 @@ Properties/C06.vos Properties/C06.vok Properties/C06.required_vos: Properties/C0
 Properties/C16.vo Properties/C16.glob Properties/C16.v.beautified Properties/C16.required_vo: Properties/C16.v Model/Sched.vo Proofs/SchedProof.vo
 Properties/C16.vio: Properties/C16.v Model/Sched.vio Proofs/SchedProof.vio
 Properties/C16.vos Properties/C16.vok Properties/C16.required_vos: Properties/C16.v Model/Sched.vos Proofs/SchedProof.vos
+Model/Plan.vo Model/Plan.glob Model/Plan.v.beautified Model/Plan.required_vo: Model/Plan.v Lib/Bytes.vo
+Model/Plan.vio: Model/Plan.v Lib/Bytes.vio
+Model/Plan.vos Model/Plan.vok Model/Plan.required_vos: Model/Plan.v Lib/Bytes.vos
+Proofs/PlanProof.vo Proofs/PlanProof.glob Proofs/PlanProof.v.beautified Proofs/PlanProof.required_vo: Proofs/PlanProof.v Lib/Bytes.vo Model/Plan.vo
+Proofs/PlanProof.vio: Proofs/PlanProof.v Lib/Bytes.vio Model/Plan.vio
+Proofs/PlanProof.vos Proofs/PlanProof.vok Proofs/PlanProof.required_vos: Proofs/PlanProof.v Lib/Bytes.vos Model/Plan.vos
+Properties/C11.vo Properties/C11.glob Properties/C11.v.beautified Properties/C11.required_vo: Properties/C11.v Lib/Bytes.vo Model/Plan.vo Proofs/PlanProof.vo
+Properties/C11.vio: Properties/C11.v Lib/Bytes.vio Model/Plan.vio Proofs/PlanProof.vio
+Properties/C11.vos Properties/C11.vok Properties/C11.required_vos: Properties/C11.v Lib/Bytes.vos Model/Plan.vos Proofs/PlanProof.vos
